@@ -188,10 +188,15 @@ protected:
     //when try_lock fails, we need to register itself to waiting queue (_requests)
     bool subscribe(awaiter *aw) {
         //so subscribe to _requests
-        aw->subscribe(_requests);
-        //now check result of _next, which gives as hint, how lock operation ended
-        //if the _next is null, the lock was unlock
-        if (aw->_next== nullptr) [[likely]] {
+        //the outcome must be taken from the value replaced by the CAS, not re-read from
+        //aw->_next: once aw is published, the current owner can already relink it
+        //(build_queue) or resume and destroy it
+        awaiter *top = _requests.load(std::memory_order_relaxed);
+        do {
+            aw->_next = top;
+        } while (!_requests.compare_exchange_weak(top, aw, std::memory_order_release, std::memory_order_relaxed));
+        //if the replaced value is null, the lock was unlock
+        if (top == nullptr) [[likely]] {
             //because current awaiter will be destroyed, we need to replace self
             //with a doorman()
             //the function build_queue does this, even if there is no requests currentl
